@@ -61,6 +61,18 @@ def make_exc(name, msg='boom'):
         return UnicodeEncodeError('ascii', '\xff', 0, 1, msg)
     if name == 'StopIteration':
         return StopIteration(msg)
+    if name.startswith('XLFROM:'):
+        # a host translating one spreadsheet error into another: `raise a from b` (scen.gen_slot adds a second callback
+        # translating in the opposite direction)
+        a, b = name[7:].split('|')
+        exc = E.from_message(a)
+        exc.__cause__ = E.from_message(b)
+        return exc
+    if name == 'ChainFrom':
+        exc = ValueError(msg)
+        exc.__cause__ = KeyError('inner')
+        exc.__cause__.__context__ = RuntimeError('deeper')
+        return exc
     if name.startswith('Arg:'):
         # an exception whose first argument is a structured payload (validation-library style)
         kind = name[4:]
@@ -105,6 +117,7 @@ EXC_CATALOGUE = [
     'Arg:dict', 'Arg:list', 'Arg:set', 'Arg:none', 'Arg:int', 'Arg:bytes', 'Arg:exc', 'Arg:nested', 'Arg:float',
     'Arg:tuple', 'Arg:bool', 'Arg:obj', 'Arg:code', 'Arg:codelist', 'Arg:surrogate',
     'XLArg:dict', 'XLArg:list', 'XLArg:none', 'XLArg:int', 'XLArg:two', 'Unhashable', 'BadHash', 'XLUnhashable',
+    'XLFROM:#VALUE!|#N/A', 'XLFROM:#N/A|#VALUE!', 'XLFROM:#REF!|#DIV/0!', 'XLFROM:#DIV/0!|#REF!', 'ChainFrom',
 ]
 
 
@@ -229,6 +242,7 @@ class World(object):
         self.max_depth = 0
         self.built = 0
         self.taps = {}
+        self.xlfrom_flips = 0
         self.slots = [None if s is None else Slot(self, i, s) for i, s in enumerate(slot_specs)]
 
     def evaluate(self, slot_id, formula):
@@ -312,7 +326,11 @@ class World(object):
                 fired['listener_raise[%s,%s]' % (kind, act['e'])] += 1
             if act['e'] in ('SyntaxError', 'IndentationError'):
                 fired['syntaxerror_from_callback'] += 1
-            raise make_exc(act['e'], act.get('m', 'boom'))
+            ename = act['e']
+            exc = make_exc(ename, act.get('m', 'boom'))
+            if ename.startswith('XLFROM:'):
+                raise exc from exc.__cause__
+            raise exc
         if a == 'abort':
             fired['cb_abort'] += 1
             raise SimAbort('callback abort')
